@@ -17,11 +17,11 @@ ASSUMPTIONS = ["an upload error reply makes the library raise by design; the rai
                "small generation batches (the statement's quantifier); the production batch (812) is used in a few thorough histories",
                "histories are sampled"]
 REQUIRED = ["histories", "checkpoints", "uploads_seen", "keys_offered", "keys_confirmed", "unconfirmed_uploads", "reoffers_seen",
-            "keys_consumed", "replays", "restarts", "signatures_verified", "error_replies", "overlap_cases", "other_requests_during_upload", "signed_prekey_checks", "boundary_histories", "stray_iq_during_upload", "login_with_pending_keys_checked", "reduced_success_logins"]
+            "keys_consumed", "replays", "restarts", "signatures_verified", "error_replies", "overlap_cases", "other_requests_during_upload", "signed_prekey_checks", "self_chats", "boundary_histories", "stray_iq_during_upload", "login_with_pending_keys_checked", "reduced_success_logins"]
 TIMEOUT = {"quick": 600, "thorough": 7200}
 
 EVENTS = ["login", "ask-keys", "ask-keys-overlap", "other-requests-during-upload", "ask-keys-lost-reply", "ask-keys-error", "disconnect", "restart", "peer-first-message", "replay-first-message",
-          "login-lost-reply", "server-closes", "stray-iq-during-upload"]
+          "login-lost-reply", "server-closes", "stray-iq-during-upload", "self-chat"]
 
 
 def hexid(b):
@@ -324,6 +324,13 @@ def one_history(acc, seed, tag, batch=None, forced_events=None):
                     W.server_close(A)
                     run_actions([])
                     nontriv = True
+            elif ev == "self-chat":
+                # a note to oneself: the account fetches the keys of its own number and builds a session with itself
+                if not c.ready():
+                    continue
+                acc.count("self_chats")
+                mk_ = "SELF%d" % ei
+                run_actions([{"op": "send", "who": A, "kind": "text", "uid": mk_, "build": lambda mk_=mk_: TextMessageProtocolEntity(mk_, to=c.jid)}])
             elif ev == "stray-iq-during-upload":
                 # while an upload is unanswered an <iq> arrives that carries the upload's id but is no reply (a request of the
                 # server's, or a stanza whose type is missing / unknown): it confirms nothing; the real answer is then lost
